@@ -140,5 +140,6 @@ func merge(t, r *Result) {
 			t.Samples = append(t.Samples, s)
 		}
 	}
+	t.Traces = append(t.Traces, r.Traces...)
 	t.Errors = append(t.Errors, r.Errors...)
 }
